@@ -77,7 +77,7 @@ type PacketNet struct {
 
 	// DecideOverride, if set, replaces the hashed fate (used by engines that
 	// place faults at specific protocol phases).
-	DecideOverride func(from netip.AddrPort, srcSeq uint64, b []byte, f Fate) Fate
+	DecideOverride func(from, to netip.AddrPort, srcSeq uint64, b []byte, f Fate) Fate
 
 	Sent, Delivered, Dropped int64
 }
@@ -209,7 +209,7 @@ func (nd *PacketNode) WriteTo(b []byte, addr net.Addr) (int, error) {
 	now := time.Now()
 	lat, f := n.decide(nd.index, srcSeq, len(b), now.Sub(n.start))
 	if n.DecideOverride != nil {
-		f = n.DecideOverride(nd.addr, srcSeq, b, f)
+		f = n.DecideOverride(nd.addr, to, srcSeq, b, f)
 	}
 	n.mu.Lock()
 	n.Sent++
